@@ -533,6 +533,8 @@ class _Typer:
                     self.err(e, f"{f}(...) receives a coordinate-dependent value of kind {a}")
             return {"Residue3D": RES, "Structure3D": STRUCT}.get(f, ID)
         if f in ("range", "enumerate", "zip", "list", "set", "dict", "tuple", "defaultdict", "OrderedSet", "str", "int", "bool", "isinstance", "filter", "next", "all", "any", "map", "reversed", "iter", "frozenset", "print", "hash"):
+            if f == "map" and len(e.args) == 2 and isinstance(e.args[0], ast.Attribute) and e.args[0].attr == "find_atom":
+                return L(ATOM)  # map(residue.find_atom, names): the atoms fetched by name (None for the missing ones)
             if f == "zip" and args and not kws:
                 return ("ZIP", list(args))
             if f in ("reversed", "set", "frozenset", "filter") and args and args[-1] in (PT, VEC):
@@ -545,6 +547,10 @@ class _Typer:
                 return L(("TUPLE", [ID, self.elem(args[0]) if isinstance(args[0], tuple) else UNK]))
             if f == "defaultdict":
                 return D(UNK, UNK)
+            if f == "dict" and len(args) == 1 and isinstance(args[0], tuple) and args[0][0] == "LIST" and isinstance(args[0][1], tuple) and args[0][1][0] == "TUPLE" and len(args[0][1][1]) == 2:
+                return D(args[0][1][1][0], args[0][1][1][1])  # dict(<list of (key, value) pairs>)
+            if f == "dict" and len(args) == 1 and isinstance(args[0], tuple) and args[0][0] == "DICT":
+                return args[0]
             return ID if f in ("range", "str", "int", "bool", "isinstance", "all", "any", "hash") else UNK
         if f.startswith("logging.") or f.startswith("logger."):
             return NONE
